@@ -19,7 +19,8 @@ grammar by tools/cfggen.py.
 
 Part 3 (exploration): spec/Loop.tla - the processing thread (decide / blocking recv with last_tick = now - 1 ms / try_recv /
 sleep / handle_time_ticks with the remainder carry) around an abstract kanata; TLC checks BlockedOnlyWhenIdle, RecvThenTick,
-NoEventLost, OnIdleNotPostponed, rejects two seeded design errors and reports the TickBudget probe.  `kverif loop-run` starts
+NoEventLost, OnIdleNotPostponed, TickBudget and rejects three seeded design errors; `kverif tick-budget` binds TickBudget to the
+real handle_time_ticks (P_C07!TickClockErr).  `kverif loop-run` starts
 the REAL Kanata::start_processing_loop in-process (simulated output) and sends events with randomized real-time gaps; on
 time-insensitive configurations the OS event sequence must equal the stepper's (P_C07!LoopErr; a disagreement counts only if it
 repeats)."""
@@ -99,6 +100,8 @@ def family(tier):
     add("chord", L("abc", ["(chord g a)", "(chord g b)", "z"], "(defchords g 2 (a) x (b) y)\n"), "abc", 2)
     # macro_on_press_cancel_duration
     add("mcancel", L("ab", ["(macro-cancel-on-press x 2 y)", "z"]), "ab", 6)
+    # (dynamic_macro_record_state: a recording grows without bound, so it has no exhaustive instance here; the conjunct
+    # is exercised on the real code by the "dynmacro" configuration of RICH and by C19's bounded instances)
     # live_reload_requested (stays requested in the stepper: never blocks again)
     add("lrld", L("ab", ["lrld", "z"]), "ab", 1)
     if tier != "quick":
@@ -331,6 +334,21 @@ def replay_case(r):
 
 def replay(r, path, wd):
     """./check replay <file>: re-run one pair on the current tree and let TLC judge it again."""
+    if r["mode"] == "tickclock":
+        build_harness()
+        tbk, tbo = os.path.join(wd, "tick_budget.kbd"), os.path.join(wd, "tick_budget.ndjson")
+        open(tbk, "w").write("(defsrc a)\n(deflayer l0 a)\n")
+        sh([HARNESS, "tick-budget", tbk, tbo], timeout=300)
+        for line in open(tbo):
+            print(line.rstrip()[:300])
+        stats, errs, notes, index = validate_pairs([tbo], wd, "replay")
+        for e in errs:
+            print("REJECTED: %s" % e["err"])
+        if errs:
+            print("VIOLATION property=%s replay=%s" % (r["property"], path))
+            return 1
+        print("accepted by P_C07!TickClockErr (%d clean samples)" % stats["pairs"])
+        return 0
     if r["mode"] == "loop":
         build_harness()
         jf, of = os.path.join(wd, "loop.job.json"), os.path.join(wd, "loop.pairs.ndjson")
@@ -517,23 +535,20 @@ NEXT Next
 CHECK_DEADLOCK FALSE
 %s
 """
-LOOP_INVS = ["BlockedOnlyWhenIdle", "RecvThenTick", "NoEventLost", "OnIdleNotPostponed"]
+LOOP_INVS = ["BlockedOnlyWhenIdle", "RecvThenTick", "NoEventLost", "OnIdleNotPostponed", "TickBudget"]
+LOOP_MUTANTS = {"no_rewind": "RecvThenTick", "block_when_counting": "BlockedOnlyWhenIdle", "rem_double_count": "TickBudget"}
 
 
 def loop_model(wd, quick):
-    """TLC on spec/Loop.tla: the invariants must hold on the design, each seeded design error must be rejected, and the
-    tick-budget probe is reported (an observation about handle_time_ticks, not a verdict of C07)."""
+    """TLC on spec/Loop.tla: the invariants must hold on the design and each seeded design error must be rejected."""
     mt, me = (28, 2) if quick else (40, 3)
     out = {}
-    runs = [("design", "none", LOOP_INVS, mt, me), ("mutant_no_rewind", "no_rewind", LOOP_INVS, 28, 2),
-            ("mutant_block_when_counting", "block_when_counting", LOOP_INVS, 28, 2),
-            ("probe_tick_budget", "none", ["TickBudget"], 28, 2),
-            ("probe_tick_budget_with_proposed_fix", "rem_fix", LOOP_INVS + ["TickBudget"], 28, 2)]
-    for name, bug, invs, t, e in runs:
+    runs = [("design", "none", mt, me)] + [("mutant_" + b, b, 28, 2) for b in LOOP_MUTANTS]
+    for name, bug, t, e in runs:
         d = os.path.join(wd, "loop_" + name)
         os.makedirs(d, exist_ok=True)
         with open(os.path.join(d, "Loop.cfg"), "w") as f:
-            f.write(LOOP_CFG_TLC % (t, e, bug, "\n".join("INVARIANT " + i for i in invs)))
+            f.write(LOOP_CFG_TLC % (t, e, bug, "\n".join("INVARIANT " + i for i in LOOP_INVS)))
         r = run_tlc(d, "Loop", workers=4, timeout=1200, heap="4g")
         if r["rc"] == 124 or (r["error"] and not r["violated"]):
             raise ToolError("TLC on Loop.tla (%s): %s" % (name, r["error"] or "timeout"))
@@ -541,9 +556,9 @@ def loop_model(wd, quick):
     if out["design"]["violated"]:
         raise ToolError("spec/Loop.tla: invariant %s is violated on the design - the loop model is wrong or the loop is; "
                         "see %s" % (out["design"]["violated"], os.path.join(wd, "loop_design", "Loop.out")))
-    for m in ("mutant_no_rewind", "mutant_block_when_counting"):
-        if not out[m]["violated"]:
-            raise ToolError("spec/Loop.tla: seeded design error %s is not rejected (vacuous invariants)" % m)
+    for b in LOOP_MUTANTS:
+        if not out["mutant_" + b]["violated"]:
+            raise ToolError("spec/Loop.tla: seeded design error %s is not rejected (vacuous invariants)" % b)
     return out
 
 
@@ -774,15 +789,20 @@ def run(tier, seed):
             raise loopres["err"]
         res.extra["loop_model"] = loopres["out"]
         res.states += res.extra["loop_model"]["design"]["states"] or 0
-        # observation for the TickBudget probe of Loop.tla on the real handle_time_ticks (not a verdict)
-        tbk, tbo = os.path.join(wd, "tick_budget.kbd"), os.path.join(wd, "tick_budget.json")
+        # the tick clock on the real handle_time_ticks (binding of Loop!TickBudget to the code): clean samples of two
+        # back-to-back calls < 0.9 ms after "0 ms elapsed", judged by TLC (P_C07!TickClockErr)
+        tbk, tbo = os.path.join(wd, "tick_budget.kbd"), os.path.join(wd, "tick_budget.ndjson")
         open(tbk, "w").write("(defsrc a)\n(deflayer l0 a)\n")
-        if sh([HARNESS, "tick-budget", tbk, tbo], check=False, timeout=120).returncode == 0:
-            res.extra["tick_budget_observation"] = json.load(open(tbo))
-            if res.extra["tick_budget_observation"]["double_count_observed"]:
-                res.notes.append("observation (not part of the verdict): handle_time_ticks counts an interval shorter than 1 ms twice "
-                                 "(ms_elapsed = 0 keeps last_tick and also carries the time in time_remainder): two calls 0.6 ms after "
-                                 "a tick return 0 and 1; predicted by spec/Loop.tla (TickBudget is not an invariant)")
+        sh([HARNESS, "tick-budget", tbk, tbo], timeout=300)
+        tstats, terrs, _, _ = validate_pairs([tbo], wd, "tickclock")
+        res.traces_validated += tstats["pairs"]
+        res.extra["tick_clock_samples"] = {"clean_samples": tstats["pairs"], "rejected": len(terrs)}
+        if tstats["pairs"] == 0:
+            res.notes.append("tick clock: no clean sample (< 0.9 ms of wall clock) could be taken on this machine; not judged")
+        for e in terrs[:1]:
+            flow.classify(res, PID, e["err"], e["err"],
+                          {"kind": "c07pair", "property": PID, "mode": "tickclock", "err": e["err"], "monitor": "P_C07"},
+                          "tickclock_%d" % len(res.violations))
         ljobs = loop_runs(rng, 3 if quick else 20)
         jf, of = os.path.join(wd, "loop.job.json"), os.path.join(wd, "loop.pairs.ndjson")
         json.dump({"jobs": ljobs}, open(jf, "w"))
@@ -828,7 +848,8 @@ def run(tier, seed):
         "instances for K in {1,2,7,Tmax+1,1000,12000} and judged by TLC (P_C07!PairErr): silent gap, decision kept, equal OS events "
         "at equal offsets; whole histories are also run by the blocking stepper against the ticking stepper. A rejected pair is "
         "attributed to a recorded finding only if the decision point shows its precondition and the counterfactual pair agrees. "
-        "Part 3: TLC on spec/Loop.tla (4 invariants, 2 seeded design errors rejected) and the real processing thread against the "
+        "Part 3: TLC on spec/Loop.tla (5 invariants, 3 seeded design errors rejected), the tick clock of the real handle_time_ticks "
+        "(P_C07!TickClockErr) and the real processing thread against the "
         "stepper on time-insensitive configurations (exploration).",
         assumptions=["deterministic stepper: one tick = tick_ms(1); can_block_update_idle_waiting(1)",
                      "a blocked wake-up is `input; tick` (last_tick = now - 1 ms)",
